@@ -106,9 +106,10 @@ def parseSRet (s : String) : Option Spec.SRet :=
 
 def iter (n : Nat) (f : α → α) (a : α) : α := Nat.rec a (fun _ x => f x) n
 
-/-- handler steps while it is running, at most `n` -/
-def hsteps (n : Nat) (s : St) : St :=
-  iter n (fun s => if s.hst = .running then (hstep s).getD s else s) s
+/-- handler steps while it is running, at most `n` (`pinned`: the `Flush` of the code before the fix) -/
+def hsteps (n : Nat) (s : St) (pinned : Bool := false) : St :=
+  iter n (fun s => if s.hst = .running then
+    ((if pinned then stepPinned reasonBytes s .h else hstep s)).getD s else s) s
 
 def stepD (s : St) (l : Label) : St := (step reasonBytes s l).getD s
 
@@ -120,6 +121,7 @@ structure RestOut where
   returned : Bool
   fin : String := "same"
   branch : String := ""
+  pinned : Bool := false
 
 def RestOut.render (o : RestOut) (withFin : Bool) : String :=
   s!"sret={o.sret} atret={showView (Spec.ofRec o.atRet)} results={showResults o.log o.returned} final={showView (Spec.ofRec o.final)}"
@@ -127,10 +129,10 @@ def RestOut.render (o : RestOut) (withFin : Bool) : String :=
 
 /-- wrapped path: `j` handler steps, then (if the handler is still running) the expiry and the timeout
 branch, else the done / panic branch; then the rest of the handler. -/
-def simWrapped (script : List Act) (kind : Option Kind) (j : Nat) : RestOut :=
+def simWrapped (script : List Act) (kind : Option Kind) (j : Nat) (pinned : Bool := false) : RestOut :=
   let s0 := St.init script
   let n := script.length + 1
-  let s1 := hsteps (match kind with | none => n | some _ => j) s0
+  let s1 := hsteps (match kind with | none => n | some _ => j) s0 pinned
   let s2 : St × String × String :=
     match s1.hst with
     | .running =>
@@ -147,8 +149,9 @@ def simWrapped (script : List Act) (kind : Option Kind) (j : Nat) : RestOut :=
       let s := stepD s1 .mPanic
       let s := match kind with | some k => stepD s (.env k) | none => s
       (s, (match s.pc with | .panicked v => s!"panic:{v}" | _ => "?"), "panic-branch")
-  let s3 := hsteps n s2.1
-  { sret := s2.2.1, atRet := s2.1.w, final := s3.w, log := s3.log, returned := s3.hst = .finished, branch := s2.2.2 }
+  let s3 := hsteps n s2.1 pinned
+  { sret := s2.2.1, atRet := s2.1.w, final := s3.w, log := s3.log, returned := s3.hst = .finished, branch := s2.2.2,
+    pinned := pinned }
 
 /-- unwrapped path (exempt request or duration ≤ 0): the handler runs on ServeHTTP's goroutine, straight on
 the real writer; the expiry has no effect. -/
@@ -167,8 +170,8 @@ def simDirect (script : List Act) (kind : Option Kind) (j : Nat) : RestOut :=
   { sret := if endedEarly then how else "blocked", atRet := a.1, final := b.1, log := b.2.1,
     returned := pan.isNone, fin := if endedEarly then "same" else how, branch := "direct" }
 
-def simRest (script : List Act) (kind : Option Kind) (j : Nat) (hdr : ReqHdr) (dur : Int) : RestOut :=
-  if restWraps dur hdr then simWrapped script kind j else simDirect script kind j
+def simRest (script : List Act) (kind : Option Kind) (j : Nat) (hdr : ReqHdr) (dur : Int) (pinned : Bool := false) : RestOut :=
+  if restWraps dur hdr then simWrapped script kind j pinned else simDirect script kind j
 
 /-! ### deadlines -/
 
@@ -212,36 +215,50 @@ def runRestLine (r : Report) (sec : Nat) (l : Line) (gated : Bool) (eng : Option
     let impl := joinSp l.obs
     let wrapped := restWraps dur hdr
     let n := script.length + 1
-    -- correspondence
-    let cands : List RestOut :=
-      if gated && !timer then [simRest script kind k hdr dur]
-      else if gated then (List.range (min k n + 1)).reverse.map (fun j => simRest script kind j hdr dur)
-      else (List.range (n + 1)).map (fun j => simRest script kind j hdr dur)
+    -- correspondence.  For scripts with `Flush` the model of the pinned `Flush` (before
+    -- fixes/C04-flush-after-timeout.patch) is accepted next to the fixed one; which one matched is counted.
+    let js : List Nat :=
+      if gated && !timer then [k]
+      else if gated then (List.range (min k n + 1)).reverse
+      else List.range (n + 1)
+    let candsOf (pinned : Bool) : List RestOut := js.map (fun j => simRest script kind j hdr dur pinned)
+    let cands : List RestOut := candsOf false ++ (if Spec.hasFlush script && wrapped then candsOf true else [])
+    let pfx := if eng.isSome then "eng-" else if gated then "rest-" else "race-"
     match cands.find? (fun c => c.render gated = impl) with
     | some c =>
-      r := r.addCover ((if eng.isSome then "eng-" else if gated then "rest-" else "race-") ++ c.branch)
-      if timer then r := r.addCover (if eng.isSome then "eng-real-timer" else "rest-real-timer")
-      if !gated then r := r.addCover s!"race-expiry-at-{(cands.findIdx? (fun c => c.render gated = impl)).getD 0}"
+      r := r.addCover (pfx ++ c.branch)
+      if timer then r := r.addCover (pfx ++ "real-timer")
+      if !gated then r := r.addCover s!"race-expiry-at-{((candsOf false).findIdx? (fun c => c.render gated = impl)).getD 0}"
+      if Spec.hasFlush script && wrapped then
+        let f := (candsOf false).any (fun c => c.render gated = impl)
+        let p := (candsOf true).any (fun c => c.render gated = impl)
+        if f && !p then r := r.addCover "flush-only-explained-by-fixed-Flush"
+        if p && !f then r := r.addCover "flush-only-explained-by-pinned-Flush"
     | none =>
       let m := match cands.head? with | some c => c.render gated | none => "?"
       r := r.mismatch sec l.idx m impl
     if Spec.hasFlush script then r := r.addCover "script-with-flush"
     if (Spec.firstPanic script false).isSome then r := r.addCover "script-panics"
     if !wrapped then r := r.addCover (if dur ≤ 0 then "unwrapped-duration<=0" else "exempt-request")
-    -- monitor: the property on the implementation's own observation (wrapped path, Flush-free scripts)
-    if wrapped && !Spec.hasFlush script then
+    -- monitor: the property on the implementation's own observation (wrapped path)
+    if wrapped then
       match parseSRet (obsOf l "sret"), parseView (obsOf l "atret"), parseView (obsOf l "final"),
             parseResults (obsOf l "results") with
       | some sret, some atRet, some final, some (results, _) =>
-        let o : Spec.Obs := { script := script, kind := kind, firedAt := if gated then some k else none,
+        let o : Spec.Obs := { script := script, kind := kind,
+                              firedLo := if gated && !timer then k else 0, firedHi := if gated then k else n,
+                              gated := gated && !timer,
                               sret := sret, atRet := atRet, final := final, results := results }
         for e in Spec.check reasonBytes o do
           r := r.violation sec l.idx s!"{e}: op=[{joinSp l.op}] impl=[{impl}]"
+          if e.startsWith "[known-class" then r := r.addCover ((e.splitOn "]").headD "" ++ "]")
         if atRet = Spec.timeout reasonBytes .deadline then r := r.addCover "saw-503"
         if atRet = Spec.timeout reasonBytes .canceled then r := r.addCover "saw-499"
         if results.any (· == .errTimeout) then r := r.addCover "saw-ErrHandlerTimeout"
+        if Spec.hasFlush script && atRet = Spec.completeF script && Spec.completes script false then
+          r := r.addCover "flush-complete-streamed-result"
       | _, _, _, _ => r := r.mismatch sec l.idx "parsable-observation" impl
-    else if !wrapped && dur > 0 then
+    else if dur > 0 then
       -- exempt request (websocket upgrade / event stream): the timeout must not touch it
       let expected := (simRest script kind k hdr dur).sret
       let refused : Bool := match parseResults (obsOf l "results") with
@@ -251,17 +268,6 @@ def runRestLine (r : Report) (sec : Nat) (l : Line) (gated : Bool) (eng : Option
         r := r.violation sec l.idx s!"exempt request (websocket/event-stream): a Write was refused with ErrHandlerTimeout: op=[{joinSp l.op}] impl=[{impl}]"
       if expected = "blocked" && obsOf l "sret" ≠ "blocked" then
         r := r.violation sec l.idx s!"exempt request (websocket/event-stream) was cut off by the timeout: op=[{joinSp l.op}] impl=[{impl}]"
-    else if wrapped then
-      -- Flush is outside the property's quantified behaviours: count what it does, never alarm
-      match parseView (obsOf l "atret"), parseView (obsOf l "final") with
-      | some atRet, some final =>
-        if final ≠ atRet then r := r.addCover "flush-changed-response-after-return"
-        match kind with
-        | some kd =>
-          if atRet ≠ Spec.timeout reasonBytes kd ∧ !(Spec.completes script false && atRet = Spec.complete script) then
-            r := r.addCover "flush-mixture-observed"
-        | none => pure ()
-      | _, _ => pure ()
     return r
 
 def runDlLine (r : Report) (sec : Nat) (l : Line) : Report :=
